@@ -9,6 +9,7 @@ import (
 	"bytes"
 	"context"
 	"crypto/tls"
+	"errors"
 	"fmt"
 	"io"
 	"io/ioutil"
@@ -16,6 +17,7 @@ import (
 	"net/url"
 
 	"github.com/fullstorydev/grpchan/internal/zzfix"
+	zv "github.com/fullstorydev/grpchan/internal/zzverif"
 )
 
 type verifMsg = zzfix.Msg
@@ -98,9 +100,14 @@ func (t *verifTransport) RoundTrip(req *http.Request) (*http.Response, error) {
 	if body == nil {
 		body = http.NoBody
 	}
+	reqHdr, herr := verifWire(req.Header, true)
+	if herr != nil {
+		scancel()
+		return nil, herr
+	}
 	sreq := (&http.Request{
 		Method: req.Method, URL: req.URL, Proto: "HTTP/1.1", ProtoMajor: 1, ProtoMinor: 1,
-		Header: req.Header, Body: body, Host: req.Host, RemoteAddr: t.remoteAddr, TLS: t.tls,
+		Header: reqHdr, Body: body, Host: req.Host, RemoteAddr: t.remoteAddr, TLS: t.tls,
 	}).WithContext(sctx)
 	rec := newVerifRecorder()
 	t.rec = rec
@@ -127,9 +134,32 @@ func (t *verifTransport) RoundTrip(req *http.Request) (*http.Response, error) {
 	return &http.Response{
 		StatusCode: rec.code, Status: fmt.Sprintf("%d %s", rec.code, http.StatusText(rec.code)),
 		Proto: "HTTP/1.1", ProtoMajor: 1, ProtoMinor: 1,
-		Header: rec.sent, Body: ioutil.NopCloser(bytes.NewReader(rec.body)), TLS: t.tls, Request: req,
+		Header: verifWireResp(rec.sent), Body: ioutil.NopCloser(bytes.NewReader(rec.body)), TLS: t.tls, Request: req,
 	}, nil
 }
+
+// verifWire applies the HTTP/1.1 wire contract to a header block (see
+// zv.WireHeaderValue). For request headers an invalid value makes the client's
+// transport refuse the request, as net/http does.
+func verifWire(h http.Header, request bool) (http.Header, error) {
+	out := http.Header{}
+	for k, vs := range h {
+		for _, v := range vs {
+			if request && !zv.ValidRequestHeaderValue(v) {
+				return nil, errInvalidHeader
+			}
+			out[k] = append(out[k], zv.WireHeaderValue(v))
+		}
+	}
+	return out, nil
+}
+
+func verifWireResp(h http.Header) http.Header {
+	out, _ := verifWire(h, false)
+	return out
+}
+
+var errInvalidHeader = errors.New("net/http: invalid header field value")
 
 // verifMux is a recording Mux for HandleServices with exact-match routing.
 type verifMux struct {
@@ -224,9 +254,14 @@ func (t *verifStreamTransport) RoundTrip(req *http.Request) (*http.Response, err
 	if body == nil {
 		body = http.NoBody
 	}
+	reqHdr, herr := verifWire(req.Header, true)
+	if herr != nil {
+		scancel()
+		return nil, herr
+	}
 	sreq := (&http.Request{
 		Method: req.Method, URL: req.URL, Proto: "HTTP/1.1", ProtoMajor: 1, ProtoMinor: 1,
-		Header: req.Header, Body: body, Host: req.Host, RemoteAddr: t.remoteAddr, TLS: t.tls,
+		Header: reqHdr, Body: body, Host: req.Host, RemoteAddr: t.remoteAddr, TLS: t.tls,
 	}).WithContext(sctx)
 	pr, pw := io.Pipe()
 	rec := &verifStreamRecorder{ready: make(chan struct{}), pw: pw, cut: -1}
@@ -259,7 +294,7 @@ func (t *verifStreamTransport) RoundTrip(req *http.Request) (*http.Response, err
 	return &http.Response{
 		StatusCode: rec.code, Status: fmt.Sprintf("%d %s", rec.code, http.StatusText(rec.code)),
 		Proto: "HTTP/1.1", ProtoMajor: 1, ProtoMinor: 1,
-		Header: rec.sent, Body: pr, TLS: t.tls, Request: req,
+		Header: verifWireResp(rec.sent), Body: pr, TLS: t.tls, Request: req,
 	}, nil
 }
 
